@@ -272,6 +272,14 @@ def search():
             p = overlapping(tmo, calls)
             if p:
                 return n, dict(problem=p)
+    # deadlines that are not whole milliseconds, or whose float product with 1000 is not exact: the deadline is the number given
+    for duration, tmo in ((0.0002, 0.0005), (2.0095, 2.01), (5.0, 2.01), (1.0, 0.0625), (0.06225, 0.0625), (1.0015, 1.002),
+                          (7.0, 1.001), (0.25, 1e-9)):
+        for outcome in ("value", "exc"):
+            n += 1
+            p = run_case(duration, outcome, tmo, None)
+            if p:
+                return n, dict(duration=duration, outcome=outcome, timeout=tmo, cancel_at=None, problem=p)
     for outcome in OUTCOMES:
         for duration in (0.0, 0.5, 1.0, 2.0):
             for tmo in (0, 0.0, 0.5, 1.0, 3.0):
